@@ -134,6 +134,28 @@ func VerifC18_suitable_implies_nonfatal() {
 	vReach("end")
 }
 
+// exact-float refinement of the implication / monotonicity on a catalogue (concrete list,
+// symbolic quantity and limits)
+// gosym: mode=bv fp=exact solver=cvc5
+func VerifC18_suitable_exact() {
+	list := c18Catalog(vParam("list", 5))
+	q := vNondetUint("q")
+	vAssume(q < uint(1)<<uint(vParam("Qbits", 3)))
+	l1 := vNondetFloat("l1")
+	l2 := vNondetFloat("l2")
+	vAssume(vAnd(l1 >= 0, l1 <= 100, l2 >= 0, l2 <= 100, l1 <= l2))
+	var dv divider.Divider = divider.Fair
+	if vChoose("divider", 2) == 1 {
+		dv = divider.Rate
+	}
+	if IsSuitableConfig(list, dv, q, l1) {
+		vReach("suitable")
+		vAssert(IsNonFatalConfig(list, dv, q), "IsSuitableConfig implies IsNonFatalConfig")
+		vAssert(IsSuitableConfig(list, dv, q, l2), "IsSuitableConfig is monotone in the limit")
+	}
+	vReach("end")
+}
+
 // The four PickUp loops against an UNINTERPRETED predicate: valid for every divider.
 func c18PredNF(combinations [][]uint, d divider.Divider, quantity uint) bool {
 	return vUFBool("P", quantity)
